@@ -59,7 +59,7 @@ Definition c18_check (c : c18_case) : bool :=
       tobs_eqb (obs_of_thr (i_a s)) a && tobs_eqb (obs_of_thr (i_b s)) b
       && list_eqb pair_eqb (map (fun x => match x with (_, before, v) => (before, v) end) (i_sets s)) sets
   | FollowCase m v r1 r2 sets hdr2 =>
-      let '(ss, h) := follow_model r1 r2 in list_eqb N.eqb ss sets && (h =? hdr2)
+      let '(ss, h) := follow_model m v r1 r2 in list_eqb N.eqb ss sets && (h =? hdr2)
   | ForwardCase w r sets hdr1 hdr2 complete2 =>
       let '(ss, h1, h2) := forward_model w r in
       list_eqb N.eqb ss sets && (h1 =? hdr1) && (h2 =? hdr2) && complete2
@@ -72,6 +72,19 @@ Definition c18_check (c : c18_case) : bool :=
       let '(br, ss, sc) := overlap_model r l in
       rclass_eqb br b_resp && list_eqb N.eqb ss sets && (sc =? a_scan) && Bool.eqb (0 <? sc) a_nonempty
   end.
+
+(* validity of a case (the hypotheses of the soundness theorem), decidable: evaluated on every case as a conjunct of the
+   check the shards run, so a case outside the theorem's reach is reported as a mismatch *)
+Definition thr_done (x : thr) : bool := match t_pc x with PDone => true | _ => false end.
+Definition c18_validb (c : c18_case) : bool :=
+  match c with
+  | OverlapCase r _ _ _ _ _ => 0 <? r           (* the probe key's revision *)
+  | SchedCase l0 f0 ls _ _ _ =>                 (* the schedule runs both reads to completion *)
+      let s := run_code (i_init l0 f0) ls in thr_done (i_a s) && thr_done (i_b s)
+  | FollowCase _ _ r1 r2 _ _ => (0 <? r1) && (r1 <? r2)    (* the leader moved on *)
+  | _ => true
+  end.
+Definition c18_checkv (c : c18_case) : bool := c18_validb c && c18_check c.
 
 (* finding signatures (known_findings.d/C18.json) *)
 
@@ -88,9 +101,9 @@ Definition set_verdict (r : role) (l : reach) (e : effects) : option N :=
   end.
 
 (* the property on one observed row *)
-Definition role_row_rest (k : kind) (r : role) (l : reach) (e : effects) : option N :=
+Definition role_row_rest (k : kind) (r : role) (proxy : bool) (l : reach) (e : effects) : option N :=
   match r with
-  | Leader => None
+  | Leader => ok_if (fwd_eqb (f_forward e) FNone && negb (f_fetch e))   (* the leader never asks anybody, never forwards *)
   | Follower =>
       match f_backend e with
       | BMutate | BWatchCall => Some 0                     (* a follower applied a write / served a watch locally *)
@@ -98,35 +111,41 @@ Definition role_row_rest (k : kind) (r : role) (l : reach) (e : effects) : optio
           if is_read k then
             match f_backend e, f_resp e with
             | BNone, RespOk => Some 0                      (* answered a read without reading? *)
-            | BNone, _ => None                             (* failed: fine *)
+            | BNone, _ => ok_if (fwd_eqb (f_forward e) FNone)   (* failed: fine *)
             | _, _ =>
                 (* data was read locally: only after a successful fetch of the leader's revision *)
                 match l with
-                | ReachOk rev => ok_if (f_fetch e && opt_eqb N.eqb (f_set e) (Some rev))
+                | ReachOk rev => ok_if (f_fetch e && opt_eqb N.eqb (f_set e) (Some rev) && fwd_eqb (f_forward e) FNone)
                 | Unreachable | Err400 | Garbage200 => Some 0
                 end
             end
+          else if is_write k || is_stream k then
+            (* a write or a watch on a follower: rejected as unavailable, or handed to the etcd proxy when there is one
+               (acknowledging it without doing either is a lost write) *)
+            ok_if ((rclass_eqb (f_resp e) RespUnavailable && fwd_eqb (f_forward e) FNone)
+                   || (proxy && negb (fwd_eqb (etcd_fwd k) FNone) && fwd_eqb (f_forward e) (etcd_fwd k)))
           else
             match k, f_resp e with
             | StatusHandler, RespOk => Some 0              (* a non-leader published a revision *)
-            | _, _ => None
+            | _, _ => ok_if (fwd_eqb (f_forward e) FNone)
             end
       end
   end.
 
-Definition role_row_ok (k : kind) (r : role) (l : reach) (e : effects) : option N :=
+Definition role_row_ok (k : kind) (r : role) (proxy : bool) (l : reach) (e : effects) : option N :=
   match set_verdict r l e with
   | Some c => Some c
-  | None => role_row_rest k r l e
+  | None => role_row_rest k r proxy l e
   end.
 
+(* a read that was run to completion finished, at a revision at least the leader's when it began *)
 Definition tobs_fresh (x : tobs) : bool :=
-  match x with TObs true bg sc _ => bg <=? sc | TObs false _ _ _ => true end.
+  match x with TObs true bg sc _ => bg <=? sc | TObs false _ _ _ => false end.
 Definition tobs_joined (x : tobs) : bool := match x with TObs _ _ _ j => j end.
 
 Definition c18_oracle (c : c18_case) : option N :=
   match c with
-  | RoleCase k r proxy l obs => role_row_ok k r l obs
+  | RoleCase k r proxy l obs => role_row_ok k r proxy l obs
   | SchedCase _ _ _ a b sets =>
       ok_if (tobs_fresh a && tobs_fresh b)
   | ForwardCase w r sets hdr1 hdr2 complete2 =>
